@@ -69,6 +69,23 @@ func genLayoutTree(c *core.Ctx, cfgIdx int) layoutCase {
 				stmts = append(stmts, model.Insert{Name: rn, Block: []model.Stmt{}})
 			default:
 				blk := append([]model.Stmt{model.Text{S: "<" + rn + ">"}}, ig.block(1+r.Intn(3), ig.o.MaxDepth)...)
+				// a component used inside the insert body: directly, or one and two blocks down
+				if r.Intn(3) == 0 {
+					t.files["components/note"] = []model.Stmt{model.Text{S: "<note "}, model.Print{E: model.Var{Name: "n"}}, model.Text{S: ">"}, model.SlotRef{Name: ""}, model.Text{S: "</note>"}}
+					use := model.Component{Name: "~note", Args: &model.ObjLit{Keys: []string{"n"}, Vals: []model.Expr{model.Lit{V: model.Int(int64(p + 1))}}}}
+					one := []model.Stmt{use}
+					switch r.Intn(5) {
+					case 1:
+						one = []model.Stmt{model.If{Conds: []model.Expr{model.Lit{V: model.Bool(true)}}, Bodies: [][]model.Stmt{{model.Text{S: "(if)"}, use}}}}
+					case 2:
+						one = []model.Stmt{model.Each{Var: "nn", Arr: intArr(1, 2), Body: []model.Stmt{use}}}
+					case 3:
+						one = []model.Stmt{model.If{Conds: []model.Expr{model.Lit{V: model.Bool(false)}}, Bodies: [][]model.Stmt{{model.Text{S: "no"}}}, Else: []model.Stmt{model.Each{Var: "nn", Arr: intArr(1), Body: []model.Stmt{use}}}}}
+					case 4:
+						one = []model.Stmt{model.Component{Name: "~note", Args: &model.ObjLit{Keys: []string{"n"}, Vals: []model.Expr{model.Lit{V: model.Int(0)}}}, Slots: []model.SlotBody{{Name: "", Body: []model.Stmt{use}}}}}
+					}
+					blk = append(blk, one...)
+				}
 				if withAcc {
 					blk = append(blk, model.Assign{Name: "acc", E: model.Binary{Op: "+", L: model.Var{Name: "acc"}, R: model.Lit{V: model.Int(1)}}}, model.Print{E: model.Var{Name: "acc"}})
 				}
